@@ -33,8 +33,13 @@ def gen_history(rng, maxlen):
             toks.append(rng.choice(["F", "R"]))
         elif r < 0.58:
             toks.append("C")
-        elif r < 0.72:
+        elif r < 0.70:
             toks.append("A"); nobj += 1
+        elif r < 0.72:
+            if nobj > ng:
+                toks.append("X"); nobj -= 1
+                if last_lhs is not None and last_lhs >= nobj:
+                    last_lhs = None
         elif r < 0.80:
             lhs = rng.randrange(nobj) if (last_lhs is None or rng.random() < 0.6) else last_lhs
             toks += ["W", str(lhs), str(rng.choice([-4, 2, 4])), str(rng.randrange(nobj))]
@@ -49,6 +54,44 @@ def gen_history(rng, maxlen):
         else:
             toks.append("K")
     toks += ["K", "C", "G", str(rng.randrange(ng)), "4", "R"]
+    for i in range(nobj):
+        toks += ["O", str(i)]
+    return " ".join(toks)
+
+
+def gen_rerecord(rng):
+    """a stack reused for a SMALLER recording: many objects, a pass that leaves non-zero gradients, objects destroyed,
+    new_recording, a seed (initialisation over the smaller range), then objects created after that seed are read,
+    seeded and swept: every one of them must raise gradient_out_of_range / be swept with a zero gradient, although
+    the gradient buffer allocated for the first recording is long enough to hold them"""
+    ng = rng.randrange(1, 4)
+    extra = rng.randrange(2, 7)
+    nobj = ng
+    toks = [str(ng)]
+    for _ in range(extra):
+        toks.append("A"); nobj += 1
+    for _ in range(rng.randrange(1, 4)):
+        lhs = rng.randrange(nobj)
+        toks += ["S", str(lhs), "1", str(rng.choice([-4, 2, 4, 8])), str(rng.randrange(nobj))]
+    for i in range(nobj):
+        if rng.random() < 0.8:
+            toks += ["G", str(i), str(rng.choice([-4, 2, 4, 12]))]
+    toks.append(rng.choice(["F", "R", "K"]))
+    for _ in range(rng.randrange(1, extra + 1)):
+        toks.append("X"); nobj -= 1
+    toks.append("N")
+    for _ in range(rng.randrange(0, 3)):
+        lhs = rng.randrange(nobj)
+        toks += ["S", str(lhs), "1", str(rng.choice([-4, 2, 4])), str(rng.randrange(nobj))]
+    toks += ["G", str(rng.randrange(nobj)), "4"]
+    first_late = nobj
+    for _ in range(rng.randrange(1, 4)):
+        toks.append("A"); nobj += 1
+    for i in range(first_late, nobj):
+        toks += rng.choice([["O", str(i)], ["G", str(i), "8"], ["O", str(i), "G", str(i), "2"]])
+    if rng.random() < 0.7:
+        toks += ["S", str(rng.randrange(first_late)), "1", "4", str(rng.randrange(first_late, nobj))]
+    toks.append(rng.choice(["F", "R"]))
     for i in range(nobj):
         toks += ["O", str(i)]
     return " ".join(toks)
@@ -102,6 +145,7 @@ def check(run, replay=None):
         hists = [replay["history"]]
     else:
         hists = [gen_history(rng, 25 if tier == "quick" else 50) for _ in range(1500 if tier == "quick" else 30000)]
+        hists += [gen_rerecord(rng) for _ in range(300 if tier == "quick" else 6000)]
 
     def both(hs):
         rc1, so1, se1 = C.sh(exe, inp="\n".join(hs) + "\n", timeout=900)
@@ -141,7 +185,7 @@ def check(run, replay=None):
     cov["rule"] = ("(1) %d misuse classes x sizes 1..6 x {default, ADEPT_STACK_THREAD_UNSAFE} builds under ASan+UBSan: exception type caught at the call site against the "
                    "type the manual names, then valid work on the same stack / arrays with its result checked; (2) random protocol histories that commit misuse on purpose "
                    "(passes and reads before seeds, objects created after the first seed then seeded / read / used in statements, append to another variable, Jacobian without "
-                   "lists) on an ASan build, every observation and exception kind compared with the extracted model. Non-trivial = histories in which at least one exception "
+                   "lists; a family that re-uses the stack for a smaller recording after destroying objects and then touches objects created after the new seed) on an ASan build, every observation and exception kind compared with the extracted model. Non-trivial = histories in which at least one exception "
                    "is raised, plus misuse classes." % len(classes))
     run.assumptions += ["Protocol.v is a hand model; tie = exact comparison of observations and exception kinds",
                         "array-side misuse classes and stack_already_active are outside the model: exception type and recovery are tested under sanitizers, not proved",
